@@ -1,5 +1,5 @@
 (* Props/C18.v -- property C18: FHIRPatch operations change exactly the targeted element, or nothing. *)
-From FPV Require Import Base.Prelude C18.Model C18.Proofs.
+From FPV Require Import Base.Prelude C18.Model C18.Proofs C18.Bridge.
 
 (* an operation that returns an error leaves the resource exactly as it was: every call, every tree *)
 Theorem C18_failure_is_atomic : forall c t, fst (expected c t) <> 0%N -> snd (expected c t) = t.
@@ -27,6 +27,10 @@ Proof. exact replace_then_replace_back. Qed.
 Theorem C18_insert_then_delete : forall p n idx v t t1 s, get p t = Some s -> (idx < count_key n (kids_of s))%nat ->
   insert_at p n idx v t = Some t1 -> delete_at p n idx t1 = Some t.
 Proof. exact insert_then_delete. Qed.
+(* what the model expects of ANY call passes the predicate the correspondence evaluates (outside known finding 1) *)
+Theorem C18_model_holds : forall c t, kf (c, t) = 0%N -> o_eval_err c <> 10%N ->
+  holds (c, t) (fst (expected c t), snd (expected c t), true) = true.
+Proof. exact model_holds_patch. Qed.
 Print Assumptions C18_failure_is_atomic.
 Print Assumptions C18_add_then_delete.
 Print Assumptions C18_replace_frame.
